@@ -248,7 +248,7 @@ func bodySlowBuilder(useBuilder bool) func(c *drv.Ctx) {
 					panic(err)
 				}
 				for _, o := range builderDocs {
-					if err := b.Index(o.ID, lww.Versions[o.V]); err != nil {
+					if err := b.Index(o.ID, lww.Body(o.V)); err != nil {
 						panic(err)
 					}
 				}
